@@ -20,7 +20,11 @@ use std::str::FromStr;
 use std::sync::Arc;
 use std::time::Duration;
 
-use bitcoin::bip32::DerivationPath;
+use bitcoin::bip32::{ChildNumber, DerivationPath, Xpriv, Xpub};
+use bitcoin::key::{CompressedPublicKey, UntweakedPublicKey};
+use bitcoin::{Address, ScriptBuf};
+use lightning_signer::util::crypto_utils::hkdf_sha256;
+use lightning_signer::wallet::Wallet;
 use bitcoin::hashes::Hash;
 use bitcoin::secp256k1::{PublicKey, Secp256k1, SecretKey};
 use bitcoin::{Network, Txid};
@@ -422,6 +426,28 @@ impl<'a> World<'a> {
                     },
                 }
             }
+            "NodeKey" => {
+                // node-level / wallet keys as the node hands them out (opaque tokens for TLC)
+                let which = r["which"].as_str().unwrap_or("").to_string();
+                match catch(|| node_key(&node, &which)) {
+                    Ok(Ok(v)) => Resp::ok(vec![v]),
+                    Ok(Err(m)) => Resp::err(m),
+                    Err(p) => Resp::err(format!("panic: {}", p)),
+                }
+            }
+            "Ref" => {
+                // the reference term of Keys.tla (HKDF / BIP32 primitives only), evaluated for this
+                // node's seed and network
+                let term = r["term"][self.g.cfg.style.as_str()].clone();
+                let seed = self.g.cfg.seed_bytes();
+                let net = self.g.cfg.network();
+                match catch(|| eval_term(&term, &seed, net)) {
+                    Ok(Ok(Tv::Str(v))) => Resp::ok(vec![v]),
+                    Ok(Ok(_)) => Resp::err("term does not yield a token".into()),
+                    Ok(Err(m)) => Resp::err(m),
+                    Err(p) => Resp::err(format!("panic: {}", p)),
+                }
+            }
             other => Resp::err(format!("unknown op {}", other)),
         }
     }
@@ -504,6 +530,101 @@ impl<'a> World<'a> {
         let fine = json!({"p": proj_raw_json(&proj), "k": keymat, "d": disk});
         (proj, fine)
     }
+}
+
+// ---------------------------------------------------------------------------------------------
+// node-level and wallet keys
+
+fn wallet_path(k: u32) -> DerivationPath {
+    DerivationPath::from(vec![ChildNumber::from_normal_idx(k).unwrap()])
+}
+
+fn node_key(node: &Arc<Node>, which: &str) -> Result<String, String> {
+    let st = |e: lightning_signer::util::status::Status| e.message().to_string();
+    Ok(match which {
+        "nodeid" => format!("pub:{}", hex::encode(node.get_id().serialize())),
+        "bolt12" => format!("pub:{}", hex::encode(node.get_bolt12_pubkey().serialize())),
+        "persist" => format!("pub:{}", hex::encode(node.get_persistence_pubkey().serialize())),
+        "onion" => format!("hex:{}", hex::encode(node.get_onion_reply_secret())),
+        "account" => format!("xpub:{}", node.get_account_extended_pubkey()),
+        "shutdown" => {
+            let sb: ScriptBuf = node.get_ldk_shutdown_scriptpubkey().into_inner();
+            format!("script:{}", hex::encode(sb.as_bytes()))
+        }
+        "hb" => {
+            // the key under which the signed heartbeat verifies
+            let hb = node.get_heartbeat();
+            let pk = node.get_account_extended_pubkey().public_key;
+            if hb.verify(&pk, &Secp256k1::new()) {
+                format!("hb:{}", hex::encode(pk.serialize()))
+            } else {
+                "hb:unverified".to_string()
+            }
+        }
+        "wpkh0" => format!("addr:{}", node.get_native_address(&wallet_path(0)).map_err(st)?),
+        "wpkh1" => format!("addr:{}", node.get_native_address(&wallet_path(1)).map_err(st)?),
+        "wpkh7" => format!("addr:{}", node.get_native_address(&wallet_path(7)).map_err(st)?),
+        "tr1" => format!("addr:{}", node.get_taproot_address(&wallet_path(1)).map_err(st)?),
+        "sh1" => format!("addr:{}", node.get_wrapped_address(&wallet_path(1)).map_err(st)?),
+        other => return Err(format!("unknown node key {}", other)),
+    })
+}
+
+/// value of a reference term: bytes, an extended private key, or a finished token
+enum Tv {
+    Bytes(Vec<u8>),
+    Key(Xpriv),
+    Str(String),
+}
+
+/// Evaluates a term of Keys.tla (RefTerm).  Only primitives: HKDF-SHA256, BIP32, address encodings.
+fn eval_term(t: &Value, seed: &[u8], net: Network) -> Result<Tv, String> {
+    let secp = Secp256k1::new();
+    let a = t.as_array().ok_or("term is not a list")?;
+    let f = a.get(0).and_then(|x| x.as_str()).ok_or("term without head")?;
+    let sub = |i: usize| eval_term(&a[i], seed, net);
+    let key = |v: Tv| match v {
+        Tv::Key(k) => Ok(k),
+        _ => Err("extended key expected".to_string()),
+    };
+    let bytes = |v: Tv| match v {
+        Tv::Bytes(b) => Ok(b),
+        _ => Err("bytes expected".to_string()),
+    };
+    let cpk = |k: &Xpriv| CompressedPublicKey(Xpub::from_priv(&secp, k).public_key);
+    Ok(match f {
+        "seed" => Tv::Bytes(seed.to_vec()),
+        "hkdf" => Tv::Bytes(hkdf_sha256(&bytes(sub(2)?)?, a[1].as_str().unwrap().as_bytes(), &[]).to_vec()),
+        "master" => Tv::Key(Xpriv::new_master(net, &bytes(sub(1)?)?).map_err(|e| e.to_string())?),
+        "child" => {
+            let i = a[1].as_u64().unwrap() as u32;
+            let cn = if a[2].as_str() == Some("h") {
+                ChildNumber::from_hardened_idx(i).unwrap()
+            } else {
+                ChildNumber::from_normal_idx(i).unwrap()
+            };
+            Tv::Key(key(sub(3)?)?.derive_priv(&secp, &[cn]).map_err(|e| e.to_string())?)
+        }
+        "xpub" => Tv::Str(format!("xpub:{}", Xpub::from_priv(&secp, &key(sub(1)?)?))),
+        "pub" => Tv::Str(format!("pub:{}", hex::encode(cpk(&key(sub(1)?)?).0.serialize()))),
+        "hbkey" => Tv::Str(format!("hb:{}", hex::encode(cpk(&key(sub(1)?)?).0.serialize()))),
+        "pub-of-bytes" => {
+            let sk = SecretKey::from_slice(&bytes(sub(1)?)?).map_err(|e| e.to_string())?;
+            Tv::Str(format!("pub:{}", hex::encode(PublicKey::from_secret_key(&secp, &sk).serialize())))
+        }
+        "hex" => Tv::Str(format!("hex:{}", hex::encode(bytes(sub(1)?)?))),
+        "p2wpkh" => Tv::Str(format!("addr:{}", Address::p2wpkh(&cpk(&key(sub(1)?)?), net))),
+        "p2shwpkh" => Tv::Str(format!("addr:{}", Address::p2shwpkh(&cpk(&key(sub(1)?)?), net))),
+        "p2tr" => {
+            let pk = UntweakedPublicKey::from(cpk(&key(sub(1)?)?).0);
+            Tv::Str(format!("addr:{}", Address::p2tr(&secp, pk, None, net)))
+        }
+        "p2wpkh-script" => {
+            let sb = ScriptBuf::new_p2wpkh(&cpk(&key(sub(1)?)?).wpubkey_hash());
+            Tv::Str(format!("script:{}", hex::encode(sb.as_bytes())))
+        }
+        other => return Err(format!("unknown term head {}", other)),
+    })
 }
 
 fn proj_raw_json(p: &Proj) -> Value {
